@@ -77,14 +77,13 @@ Theorem c06_sprint_events_sum_partial : forall E k acts c c' evs,
 Proof. exact sprint_group_events. Qed.
 Print Assumptions c06_sprint_events_sum_partial.
 
-(* "a contact that becomes non-active also leaves all its static groups", whenever the engine hands back a session:
-   the invariant "a non-active contact is in no static group" is kept by every sprint (the starting contact and a
-   refreshed contact are the caller's: premises) *)
+(* "a contact that becomes non-active also leaves all its static groups", whenever the engine hands back a session: a
+   non-active contact is in NO static group after any engine call, whatever the starting or refreshed contact's
+   stored membership (since fix F6e session.ensureQueryBasedGroups is modifiers.ReevaluateGroups) *)
 Theorem c06_no_static_groups_sprint_partial : forall E k acts c c' evs,
-  wf_contact E c -> kind_wf E k -> kind_static_ok E k -> Forall (fun fm => mod_wf E (snd fm)) acts ->
-  NoStaticIfInactive E c ->
+  wf_contact E c -> kind_wf E k -> Forall (fun fm => mod_wf E (snd fm)) acts ->
   run_sprint E k acts c = (c', evs) -> NoStaticIfInactive E c'.
-Proof. exact sprint_no_static. Qed.
+Proof. exact sprint_no_static_full. Qed.
 Print Assumptions c06_no_static_groups_sprint_partial.
 
 (* As the code stands the engine evaluates queries in TWO environments: the session's at start/resume, the
